@@ -162,10 +162,25 @@ theorem relink_ren (hσ : Function.Injective σ) (cur xs : List Nat) :
     simp only [relink, List.map_cons, List.foldl_cons] at *
     rw [appendMove_ren hσ, ih]
 
+theorem sharedGraph_ren (hσ : Function.Injective σ) (U : List Ent) :
+    sharedGraph (U.map (renEnt σ τ)) = sharedGraph U := by
+  unfold sharedGraph
+  have : (U.map (renEnt σ τ)).map Ent.id = (U.map Ent.id).map σ := by
+    simp [List.map_map, Function.comp, renEnt]
+  rw [this]
+  by_cases h : (U.map Ent.id).Nodup
+  · have h2 : ((U.map Ent.id).map σ).Nodup := (List.nodup_map_iff hσ).2 h
+    rw [decide_eq_true h, decide_eq_true h2]
+  · have h2 : ¬ ((U.map Ent.id).map σ).Nodup := fun hc => h ((List.nodup_map_iff hσ).1 hc)
+    rw [decide_eq_false h, decide_eq_false h2]
+
 /-- **equivariance of the whole sort** under injective renaming of node and graph identities -/
 theorem sortModel_ren (hσ : Function.Injective σ) (hτ : Function.Injective τ) (g : MGraph) :
     sortModel (renG σ τ g) = (sortModel g).map (renOrders σ τ) := by
-  simp only [sortModel, nodesOf_ren, List.length_map, predsAt_ren (τ := τ) hσ, graphsOf_ren]
+  simp only [sortModel, nodesOf_ren, List.length_map, predsAt_ren (τ := τ) hσ, graphsOf_ren,
+    sharedGraph_ren (τ := τ) hσ]
+  split
+  · rfl
   split
   · rfl
   · simp only [Option.map_some, renOrders, List.map_map]
